@@ -1,24 +1,44 @@
-"""Thorough tier only: a few width-sensitive operations on EVERY digit count N = 1..=1024 of the u8-digit type
-(all widths 8, 16, ..., 8192 bits), answered by harness bin `widths` (1024 instantiations, slow to build).
-Catches changes keyed to one particular width (thresholds derived from BITS, approximations of log10(2), ...)."""
+"""All-widths sweep: width-sensitive requests on EVERY digit count N = 1..=1024 of the u8-digit types (all widths
+8, 16, ..., 8192 bits, unsigned and signed), answered by the harness bins `widths`, `widths2`, `widths3`
+(tools/gen_widths.py; 1024 instantiations each, built without optimisation).  Catches changes keyed to one
+particular width or digit count (thresholds derived from BITS, approximations of log10(2), fast paths for N == k,
+accumulators that overflow beyond N digits, ...).
+
+Every generator yields (request, tag, expected): `expected` is the answer computed here with Python's exact integers.
+check.py sends such requests to the real crate first and consults the Lean driver (model + spec) only for the
+requests whose crate answer differs from `expected` - the Lean spec stays the judge of every reported violation, the
+Python value is only a pre-filter that keeps the (slow, list-based) Lean model out of ~10^4 8192-bit evaluations per
+run.  A sample of the requests (N <= 40 and every 64th N) is always sent through the driver as well, so the model is
+still tied to the code at sampled widths in every run."""
+import math
 import re
+import struct
 from .common import *
 
 _STD = None
+BINS = ["widths", "widths2", "widths3"]
+_B1 = {"from_str_radix", "from_str", "parse_bytes", "from_radix_be", "from_radix_le", "to_str_radix", "to_radix_be", "to_radix_le",
+       "checked_ilog10", "checked_ilog2", "checked_ilog", "overflowing_pow", "checked_pow"}
+_B3 = {"to_f32", "to_f64", "from_f32", "from_f64", "from_le_slice", "from_be_slice", "nt_sqrt", "nt_cbrt", "nt_nth_root", "nt_gcd"}
 
 
 def is_sweep(line):
-    """requests for configurations u8xN outside the standard list go to the `widths` bin"""
+    """requests for configurations u8xN / i8xN outside the standard list go to the `widths*` bins"""
     global _STD
     if _STD is None:
         _STD = set(THOROUGH_CFGS + HUGE_CFGS)
-    m = re.match(r"\S+ u(8x\d+) ", line + " ")
+    m = re.match(r"\S+ [ui](8x\d+) ", line + " ")
     return bool(m) and m.group(1) not in _STD
+
+
+def sweep_bin(line):
+    op = line.split(" ", 1)[0]
+    return "widths" if op in _B1 else "widths3" if op in _B3 else "widths2"
 
 
 def route(line, default, inner=None):
     if is_sweep(line):
-        return "widths"
+        return sweep_bin(line)
     return inner(line) if inner else default
 
 
@@ -26,28 +46,173 @@ def ns(rng):
     return range(1, 1025)
 
 
+def always_driver(line):
+    """sampled widths whose requests always go through the Lean driver too"""
+    m = re.match(r"\S+ [ui]8x(\d+) ", line + " ")
+    if not m:
+        return True
+    n = int(m.group(1))
+    return n <= 40 or n % 64 == 0
+
+
+# ---------------------------------------------------------------- answer formats of the harness
+def _pat(z, W):
+    return hx(z % (1 << W))
+
+
+def _opt(x):
+    return "N" if x is None else f"S({x})"
+
+
+def _tohex(s):
+    return s.encode().hex() if isinstance(s, str) else bytes(s).hex()
+
+
+def _sval(p, W):
+    return p - (1 << W) if p >> (W - 1) else p
+
+
+def _rep(z, W, signed):
+    return -(1 << (W - 1)) <= z < (1 << (W - 1)) if signed else 0 <= z < (1 << W)
+
+
+def _parse_expected(z, W, signed):
+    if _rep(z, W, signed):
+        return f"Ok({_pat(z, W)})"
+    return "Err(NegOverflow)" if z < 0 else "Err(PosOverflow)"
+
+
+DIG = "0123456789abcdefghijklmnopqrstuvwxyz"
+
+
+def _to_radix(z, r):
+    out = []
+    while z:
+        z, d = divmod(z, r)
+        out.append(d)
+    return out      # little endian, empty for zero
+
+
+def _str_radix(z, r):
+    s = "".join(DIG[d] for d in reversed(_to_radix(abs(z), r))) or "0"
+    return ("-" if z < 0 else "") + s
+
+
+def _cfg(signed, n):
+    return f"{'i' if signed else 'u'}8x{n}"
+
+
+def _ilog(x, b):
+    if x <= 0 or b < 2:
+        return None
+    k, p = 0, b
+    while p <= x:
+        p *= b
+        k += 1
+    return k
+
+
+# ---------------------------------------------------------------- sweeps (name -> generator)
 def parse_print(rng):
+    """decimal parsing at the limits of every width (FromStr and from_str_radix), unsigned and signed"""
     for n in ns(rng):
         W = 8 * n
         M = 1 << W
-        for z in (M - 1, M, 10 ** (len(str(M - 1)) - 1), rng.randrange(M)):
-            yield f"from_str u8x{n} {str(z).encode().hex()}", "width-sweep"
-        yield f"from_str_radix u8x{n} {rng.choice([3, 7, 10, 36])} {('0' * 3 + str(rng.randrange(10))).encode().hex()}", "width-sweep"
+        digs = len(str(M - 1))
+        for z in (M - 1, M, 10 ** (digs - 1), 10 ** digs - 1, rng.randrange(M)):
+            yield f"from_str u8x{n} {_tohex(str(z))}", "width-sweep", _parse_expected(z, W, False)
+        H = M >> 1
+        for z in (H - 1, H, -H, -H - 1, -(10 ** (len(str(H)) - 1))):
+            yield f"from_str i8x{n} {_tohex(str(z))}", "width-sweep", _parse_expected(z, W, True)
+        r = rng.choice([3, 7, 10, 36])
+        d = rng.randrange(10) % r
+        yield f"from_str_radix u8x{n} {r} {_tohex('0' * 3 + str(d))}", "width-sweep", f"Ok({hx(d)})"
+        r = rng.choice([2, 4, 16, 8, 32, 10, 36])
+        z = rng.choice([M - 1, M, rng.randrange(M)])
+        yield f"from_str_radix u8x{n} {r} {_tohex(_str_radix(z, r))}", "width-sweep", _parse_expected(z, W, False)
+        yield f"parse_bytes u8x{n} {r} {_tohex('+' + _str_radix(M - 1, r))}", "width-sweep", f"S({hx(M - 1)})"
+
+
+def from_radix(rng):
+    for n in ns(rng):
+        W = 8 * n
+        M = 1 << W
+        for r in (256, rng.choice([2, 10, 16, 100, 255, 128])):
+            for z in (M - 1, M, rng.randrange(M)):
+                ds = _to_radix(z, r) or [0]
+                exp = _opt(hx(z)) if z < M else "N"
+                if rng.random() < 0.5:
+                    yield f"from_radix_le u8x{n} {r} {_tohex(ds)}", "width-sweep", exp
+                else:
+                    yield f"from_radix_be u8x{n} {r} {_tohex(list(reversed(ds)))}", "width-sweep", exp
 
 
 def print_(rng):
     for n in ns(rng):
-        M = 1 << (8 * n)
+        W = 8 * n
+        M = 1 << W
         for z in (M - 1, rng.randrange(M)):
-            yield f"to_str_radix u8x{n} 10 {hx(z)}", "width-sweep"
-        yield f"to_str_radix u8x{n} {rng.choice([3, 8, 32, 36])} {hx(M - 1)}", "width-sweep"
+            yield f"to_str_radix u8x{n} 10 {hx(z)}", "width-sweep", _tohex(_str_radix(z, 10))
+        r = rng.choice([3, 8, 32, 36, 2, 16])
+        yield f"to_str_radix u8x{n} {r} {hx(M - 1)}", "width-sweep", _tohex(_str_radix(M - 1, r))
+        p = rng.choice([M >> 1, M - 1, (M >> 1) + rng.randrange(M >> 1)])
+        yield f"to_str_radix i8x{n} 10 {hx(p)}", "width-sweep", _tohex(_str_radix(_sval(p, W), 10))
+        r = rng.choice([256, 10, 128, 255, 7])
+        z = rng.choice([M - 1, rng.randrange(M), 1 << rng.randrange(W)])
+        ds = _to_radix(z, r) or [0]
+        yield f"to_radix_le u8x{n} {r} {hx(z)}", "width-sweep", _tohex(ds)
+        yield f"to_radix_be u8x{n} {r} {hx(z)}", "width-sweep", _tohex(list(reversed(ds)))
 
 
 def ilog(rng):
     for n in ns(rng):
-        M = 1 << (8 * n)
-        yield f"checked_ilog10 u8x{n} {hx(M - 1)}", "width-sweep"
-        yield f"checked_ilog10 u8x{n} {hx(10 ** (len(str(M - 1)) - 1))}", "width-sweep"
+        W = 8 * n
+        M = 1 << W
+        p10 = 10 ** (len(str(M - 1)) - 1)
+        yield f"checked_ilog10 u8x{n} {hx(M - 1)}", "width-sweep", _opt(_ilog(M - 1, 10))
+        yield f"checked_ilog10 u8x{n} {hx(p10)}", "width-sweep", _opt(_ilog(p10, 10))
+        yield f"checked_ilog10 u8x{n} {hx(p10 - 1)}", "width-sweep", _opt(_ilog(p10 - 1, 10))
+        yield f"checked_ilog2 u8x{n} {hx(M - 1)}", "width-sweep", _opt(W - 1)
+        H = M >> 1
+        yield f"checked_ilog10 i8x{n} {hx(H - 1)}", "width-sweep", _opt(_ilog(H - 1, 10))
+        yield f"checked_ilog10 i8x{n} {hx(H)}", "width-sweep", "N"
+        b = rng.choice([3, 7, 255, 256, 1000])
+        x = rng.choice([M - 1, rng.randrange(1, M)])
+        if b < M:
+            yield f"checked_ilog u8x{n} {hx(x)} {hx(b)}", "width-sweep", _opt(_ilog(x, b))
+
+
+def pow_(rng):
+    for n in ns(rng):
+        W = 8 * n
+        M = 1 << W
+        b = rng.choice([2, 3, 10, 255, 257])
+        e = max(1, int(W * math.log(2) / math.log(b)))
+        for ee in (e, e + 1):
+            z = b ** ee
+            yield f"overflowing_pow u8x{n} {hx(b)} {ee}", "width-sweep", f"({_pat(z, W)},{'true' if z >= M else 'false'})"
+        z = 3 ** ee
+        H = M >> 1
+        yield f"checked_pow i8x{n} {_pat(-3, W)} {ee}", "width-sweep", _opt(_pat((-3) ** ee, W) if _rep((-3) ** ee, W, True) else None)
+
+
+def addsub(rng):
+    for n in ns(rng):
+        W = 8 * n
+        M = 1 << W
+        H = M >> 1
+        a = rng.randrange(M)
+        yield f"overflowing_add u8x{n} {hx(M - 1)} 1", "width-sweep", "(0,true)"
+        yield f"overflowing_add u8x{n} {hx(a)} {hx(M - 1 - a)}", "width-sweep", f"({hx(M - 1)},false)"
+        yield f"overflowing_sub u8x{n} 0 1", "width-sweep", f"({hx(M - 1)},true)"
+        b = rng.randrange(M)
+        yield f"overflowing_sub u8x{n} {hx(a)} {hx(b)}", "width-sweep", f"({_pat(a - b, W)},{'true' if a < b else 'false'})"
+        yield f"overflowing_add i8x{n} {hx(H - 1)} 1", "width-sweep", f"({hx(H)},true)"
+        yield f"overflowing_sub i8x{n} {hx(H)} 1", "width-sweep", f"({hx(H - 1)},true)"
+        yield f"overflowing_neg i8x{n} {hx(H)}", "width-sweep", f"({hx(H)},true)"
+        yield f"overflowing_neg i8x{n} {hx(a)}", "width-sweep", f"({_pat(-a, W)},{'true' if a == H else 'false'})"
+        yield f"checked_add u8x{n} {hx(a)} {hx(b)}", "width-sweep", _opt(hx(a + b) if a + b < M else None)
+        yield f"saturating_sub i8x{n} {hx(a)} {hx(b)}", "width-sweep", hx(max(-H, min(H - 1, _sval(a, W) - _sval(b, W))) % M)
 
 
 def mul(rng):
@@ -55,29 +220,222 @@ def mul(rng):
         W = 8 * n
         M = 1 << W
         k = rng.randrange(W)
-        yield f"overflowing_mul u8x{n} {hx(1 << k)} {hx(1 << (W - k - 1))}", "width-sweep"
-        yield f"overflowing_mul u8x{n} {hx((1 << k) + 1)} {hx(1 << (W - k))}", "width-sweep"
+        yield f"overflowing_mul u8x{n} {hx(1 << k)} {hx(1 << (W - k - 1))}", "width-sweep", f"({hx(1 << (W - 1))},false)"
+        z = ((1 << k) + 1) << (W - k)
+        yield f"overflowing_mul u8x{n} {hx((1 << k) + 1)} {hx(1 << (W - k))}" if W - k < W else f"overflowing_mul u8x{n} 1 1", "width-sweep", (f"({_pat(z, W)},true)" if W - k < W else "(1,false)")
         if n <= 300 or n % 16 == 0:
-            yield f"overflowing_mul u8x{n} {hx(M - 1)} {hx(M - 1)}", "width-sweep"
+            z = (M - 1) * (M - 1)
+            yield f"overflowing_mul u8x{n} {hx(M - 1)} {hx(M - 1)}", "width-sweep", f"({_pat(z, W)},{'true' if z >= M else 'false'})"
+            yield f"widening_mul u8x{n} {hx(M - 1)} {hx(M - 1)}", "width-sweep", f"({_pat(z, W)},{hx(z >> W)})"
+            a, b, c = rng.randrange(M), rng.randrange(M), rng.choice([M - 1, rng.randrange(M)])
+            z = a * b + c
+            yield f"carrying_mul u8x{n} {hx(a)} {hx(b)} {hx(c)}", "width-sweep", f"({_pat(z, W)},{hx(z >> W)})"
+        H = M >> 1
+        yield f"overflowing_mul i8x{n} {hx(H)} {hx(M - 1)}", "width-sweep", f"({hx(H)},true)"
+        a = rng.randrange(1 << (W // 2))
+        b = rng.randrange(1 << (W - W // 2 - 1))
+        yield f"checked_mul i8x{n} {_pat(-a, W)} {hx(b)}", "width-sweep", _opt(_pat(-a * b, W) if _rep(-a * b, W, True) else None)
 
 
 def rem(rng):
     for n in ns(rng):
-        M = 1 << (8 * n)
+        W = 8 * n
+        M = 1 << W
         d = rng.randrange(1, M)
-        yield f"checked_rem u8x{n} {hx(M - 1)} {hx(d)}", "width-sweep"
-        yield f"checked_rem u8x{n} {hx(rng.randrange(M))} {hx(rng.randrange(1, 1 << (8 * max(1, n // 2))))}", "width-sweep"
+        yield f"checked_rem u8x{n} {hx(M - 1)} {hx(d)}", "width-sweep", _opt(hx((M - 1) % d))
+        a, d = rng.randrange(M), rng.randrange(1, 1 << (8 * max(1, n // 2)))
+        yield f"checked_rem u8x{n} {hx(a)} {hx(d)}", "width-sweep", _opt(hx(a % d))
+        yield f"checked_div u8x{n} {hx(a)} {hx(d)}", "width-sweep", _opt(hx(a // d))
+        if n >= 3:
+            d = rng.randrange(1 << (8 * (n - 2)), 1 << (8 * (n - 1)))
+            yield f"checked_div u8x{n} {hx(M - 1)} {hx(d)}", "width-sweep", _opt(hx((M - 1) // d))
+        x, y = _sval(a, W), rng.choice([-1, 1]) * d
+        q = abs(x) // abs(y) * (1 if (x < 0) == (y < 0) else -1)
+        yield f"checked_div i8x{n} {hx(a)} {_pat(y, W)}", "width-sweep", _opt(_pat(q, W) if _rep(q, W, True) else None)
+        yield f"checked_rem_euclid i8x{n} {hx(a)} {_pat(y, W)}", "width-sweep", _opt(hx(x % abs(y)))
 
 
-def to_f64(rng):
+def shift(rng):
     for n in ns(rng):
-        M = 1 << (8 * n)
-        yield f"to_f64 u8x{n} {hx(M - 1)}", "width-sweep"
-        yield f"to_f64 u8x{n} {hx(rng.randrange(M))}", "width-sweep"
+        W = 8 * n
+        M = 1 << W
+        a = rng.choice([M - 1, rng.randrange(M), (M >> 1) | 1])
+        for k in (W - 1, W, rng.randrange(W), 8 * rng.randrange(n)):
+            yield f"checked_shl u8x{n} {hx(a)} {k}", "width-sweep", _opt(_pat(a << k, W) if k < W else None)
+            yield f"checked_shr i8x{n} {hx(a)} {k}", "width-sweep", _opt(_pat(_sval(a, W) >> k, W) if k < W else None)
+        k = rng.choice([1, W - 1, W, W + 1, rng.randrange(4 * W)])
+        r = k % W
+        yield f"rotate_left u8x{n} {hx(a)} {k}", "width-sweep", hx(((a << r) | (a >> (W - r))) % M)
+        yield f"rotate_right i8x{n} {hx(a)} {k}", "width-sweep", hx(((a >> r) | (a << (W - r))) % M)
 
 
 def count(rng):
     for n in ns(rng):
-        M = 1 << (8 * n)
-        yield f"count_ones u8x{n} {hx(M - 1)}", "width-sweep"
-        yield f"count_ones u8x{n} {hx(rng.randrange(M))}", "width-sweep"
+        W = 8 * n
+        M = 1 << W
+        a = rng.randrange(M)
+        yield f"count_ones u8x{n} {hx(M - 1)}", "width-sweep", str(W)
+        yield f"count_ones u8x{n} {hx(a)}", "width-sweep", str(bin(a).count("1"))
+        yield f"count_zeros i8x{n} {hx(a)}", "width-sweep", str(W - bin(a).count("1"))
+        yield f"leading_zeros u8x{n} 0", "width-sweep", str(W)
+        yield f"leading_ones i8x{n} {hx(M - 1)}", "width-sweep", str(W)
+        yield f"trailing_zeros u8x{n} 0", "width-sweep", str(W)
+        yield f"trailing_ones u8x{n} {hx(M - 1)}", "width-sweep", str(W)
+        k = rng.randrange(W)
+        yield f"leading_zeros u8x{n} {hx(1 << k)}", "width-sweep", str(W - 1 - k)
+        yield f"trailing_zeros i8x{n} {hx(1 << k)}", "width-sweep", str(k)
+        yield f"reverse_bits u8x{n} {hx(a)}", "width-sweep", hx(int(format(a, f"0{W}b")[::-1], 2))
+        yield f"swap_bytes i8x{n} {hx(a)}", "width-sweep", hx(int.from_bytes(a.to_bytes(n, "little"), "big"))
+        yield f"is_power_of_two u8x{n} {hx(1 << k)}", "width-sweep", "true"
+        yield f"checked_next_power_of_two u8x{n} {hx((M >> 1) + 1)}", "width-sweep", "N"
+        yield f"checked_next_power_of_two u8x{n} {hx((1 << k) + (1 if k else 0))}", "width-sweep", _opt(hx(1 << (k + 1)) if 0 < k < W - 1 else None if k == W - 1 and k else hx(1))
+
+
+def cmp_(rng):
+    for n in ns(rng):
+        W = 8 * n
+        M = 1 << W
+        a = rng.randrange(M)
+        b = a ^ (1 << rng.randrange(W))
+        yield f"cmp u8x{n} {hx(a)} {hx(b)}", "width-sweep", "Less" if a < b else "Greater"
+        yield f"cmp i8x{n} {hx(a)} {hx(b)}", "width-sweep", "Less" if _sval(a, W) < _sval(b, W) else "Greater"
+        yield f"eq u8x{n} {hx(a)} {hx(b)}", "width-sweep", "false"
+        yield f"eq i8x{n} {hx(a)} {hx(a)}", "width-sweep", "true"
+
+
+def _rne_bits(v, mant, emax, ebits):
+    """bit pattern of the float nearest to the non-negative integer v (ties to even; +inf on overflow)"""
+    if v == 0:
+        return 0
+    L = v.bit_length()
+    p = mant + 1
+    if L <= p:
+        m, e = v << (p - L), L - 1
+    else:
+        sh = L - p
+        m = v >> sh
+        rem = v & ((1 << sh) - 1)
+        half = 1 << (sh - 1)
+        if rem > half or (rem == half and (m & 1)):
+            m += 1
+        e = L - 1
+        if m >> p:
+            m >>= 1
+            e += 1
+    if e > emax:
+        return ((1 << ebits) - 1) << mant
+    return ((e + emax) << mant) | (m & ((1 << mant) - 1))
+
+
+def _fbits(z, kind):
+    mant, emax, ebits, tot = (23, 127, 8, 32) if kind == 32 else (52, 1023, 11, 64)
+    b = _rne_bits(abs(z), mant, emax, ebits)
+    return format(b | ((1 << (tot - 1)) if z < 0 else 0), "x")
+
+
+def _fval(bits, kind):
+    """(kind, exact value as Fraction-free pair) of a float bit pattern: ('nan',), ('inf', sign) or ('fin', int trunc)"""
+    mant, emax, ebits, tot = (23, 127, 8, 32) if kind == 32 else (52, 1023, 11, 64)
+    s = bits >> (tot - 1)
+    e = (bits >> mant) & ((1 << ebits) - 1)
+    m = bits & ((1 << mant) - 1)
+    if e == (1 << ebits) - 1:
+        return ("nan",) if m else ("inf", s)
+    if e == 0:
+        mm, ee = m, 1 - emax - mant
+    else:
+        mm, ee = m | (1 << mant), e - emax - mant
+    t = mm << ee if ee >= 0 else mm >> (-ee)
+    return ("fin", -t if s else t)
+
+
+def _from_float(bits, kind, W, signed):
+    v = _fval(bits, kind)
+    lo, hi = (-(1 << (W - 1)), (1 << (W - 1)) - 1) if signed else (0, (1 << W) - 1)
+    if v[0] == "nan":
+        return "0"
+    if v[0] == "inf":
+        return hx((lo if v[1] else hi) % (1 << W))
+    return hx(max(lo, min(hi, v[1])) % (1 << W))
+
+
+def floats(rng):
+    for n in ns(rng):
+        W = 8 * n
+        M = 1 << W
+        H = M >> 1
+        for z in (M - 1, rng.randrange(M), (1 << (W - 1)) + (1 << max(0, W - 25)), (1 << (W - 1)) + (1 << max(0, W - 54))):
+            yield f"to_f64 u8x{n} {hx(z)}", "width-sweep", _fbits(z, 64)
+            yield f"to_f32 u8x{n} {hx(z)}", "width-sweep", _fbits(z, 32)
+        for p in (H, H + 1, M - 1, rng.randrange(M)):
+            yield f"to_f64 i8x{n} {hx(p)}", "width-sweep", _fbits(_sval(p, W), 64)
+            yield f"to_f32 i8x{n} {hx(p)}", "width-sweep", _fbits(_sval(p, W), 32)
+        # floats at and around 2^W, 2^(W-1) (saturation boundaries of this width) and a random one
+        for kind, emax, mant in ((32, 127, 23), (64, 1023, 52)):
+            for e in (W, W - 1, W - 2, rng.randrange(0, W + 3)):
+                if e > emax:
+                    continue
+                for frac in (0, (1 << mant) - 1, rng.randrange(1 << mant)):
+                    for sgn in (0, 1):
+                        bits = (sgn << (kind - 1)) | ((e + emax) << mant) | frac
+                        if rng.random() < 0.35:
+                            yield f"from_f{kind} u8x{n} {bits:x}", "width-sweep", _from_float(bits, kind, W, False)
+                        if rng.random() < 0.35:
+                            yield f"from_f{kind} i8x{n} {bits:x}", "width-sweep", _from_float(bits, kind, W, True)
+
+
+def slices(rng):
+    for n in ns(rng):
+        W = 8 * n
+        M = 1 << W
+        z = rng.randrange(M)
+        le = z.to_bytes(n, "little")
+        yield f"from_le_slice u8x{n} {_tohex(le)}", "width-sweep", _opt(hx(z))
+        yield f"from_be_slice u8x{n} {_tohex(le[::-1])}", "width-sweep", _opt(hx(z))
+        yield f"from_le_slice u8x{n} {_tohex(le + bytes([0, 0]))}", "width-sweep", _opt(hx(z))
+        yield f"from_be_slice u8x{n} {_tohex(bytes([1]) + le[::-1])}", "width-sweep", "N"
+        k = rng.randrange(1, n + 1)
+        yield f"from_le_slice i8x{n} {_tohex(le[:k])}", "width-sweep", _opt(_pat(int.from_bytes(le[:k], "little", signed=True), W))
+        sgn = 0xff if le[-1] & 0x80 else 0
+        yield f"from_be_slice i8x{n} {_tohex(bytes([sgn]) + le[::-1])}", "width-sweep", _opt(hx(z))
+        yield f"from_be_slice i8x{n} {_tohex(bytes([sgn ^ 0xff]) + le[::-1])}", "width-sweep", "N"
+
+
+def _iroot(x, k):
+    if x < 2:
+        return x
+    r = 1 << -(-x.bit_length() // k)
+    while True:
+        t = ((k - 1) * r + x // r ** (k - 1)) // k
+        if t >= r:
+            return r
+        r = t
+
+
+def roots(rng):
+    for n in ns(rng):
+        W = 8 * n
+        M = 1 << W
+        for x in (M - 1, rng.randrange(M)):
+            yield f"nt_sqrt u8x{n} {hx(x)}", "width-sweep", hx(_iroot(x, 2))
+        if n <= 256 or n % 8 == 0:
+            yield f"nt_cbrt u8x{n} {hx(M - 1)}", "width-sweep", hx(_iroot(M - 1, 3))
+            k = rng.choice([4, 5, 7, W // 2, W - 1, W, 255, 256, 257])
+            if k >= 1:
+                yield f"nt_nth_root u8x{n} {hx(M - 1)} {k}", "width-sweep", hx(_iroot(M - 1, k))
+        a, b = rng.randrange(M), rng.randrange(M)
+        if n <= 128 or n % 32 == 0:
+            g = rng.randrange(1, 1 << max(1, W // 3))
+            a, b = (a // g) * g, (b // g) * g
+            yield f"nt_gcd u8x{n} {hx(a)} {hx(b)}", "width-sweep", hx(math.gcd(a, b))
+        H = M >> 1
+        yield f"nt_sqrt i8x{n} {hx(H - 1)}", "width-sweep", hx(_iroot(H - 1, 2))
+
+
+SWEEPS = {"parse_print": parse_print, "from_radix": from_radix, "print_": print_, "ilog": ilog, "pow": pow_, "addsub": addsub,
+          "mul": mul, "rem": rem, "shift": shift, "count": count, "cmp": cmp_, "floats": floats, "slices": slices, "roots": roots}
+
+
+# backwards-compatible names used by the property generators
+def to_f64(rng):
+    yield from floats(rng)
